@@ -55,9 +55,16 @@ def job(j):
         im = Image(data)
     except Exception as e:
         return (cid, 'accepted', bad + ['result not readable by the independent reader: %r' % e], '')
-    rc2, out2 = run([E2FSCK, '-fn', p if not off else '%s?offset=%d' % (p, off)], timeout=120)
+    plog = p + '.plog'
+    if os.path.exists(plog): os.unlink(plog)
+    rc2, out2 = run([E2FSCK, '-fn', '-E', 'problem_log=' + plog, p if not off else '%s?offset=%d' % (p, off)], timeout=120)
+    codes = sorted(set(c for c, a in fsweep.read_problem_log(plog)))
     if rc2 != 0:
         bad.append('e2fsck -fn exits %s on the fresh filesystem: %s' % (rc2, out2[-300:]))
+    elif codes:
+        # e2fsck forgets some problems it declined to fix under -n when it computes its exit status (known finding of C02); a fresh filesystem on which
+        # e2fsck asks any repair question is not consistent, whatever the exit status says
+        bad.append('e2fsck -fn exits 0 but reports problems %s on the fresh filesystem: %s' % (['0x%06x' % c for c in codes], out2[-300:]))
     elif im.inodes_count <= 40000 and im.blocks_count <= (1 << 20) and not (im.incompat & (0x20000 | 0x10000)) :
         v = xcheck(im)
         if v: bad.append('independent checker: %s' % [list(x) for x in v[:3]])
@@ -160,6 +167,13 @@ def main(tier, only=None):
             for s in ((3000, 9000) if quick else (1500, 3000, 9000, 20000)):
                 if dv == ['-E', 'offset=4096']: s2 = s
                 jobs.append(('opt/%s/%s/%dk' % (name, ' '.join(x if not x.startswith('/') else 'DIR' for x in dv), s), o + dv + (['-b', '1024'] if '-T' not in dv else []), s, 1024 if '-T' not in dv else None, s == 3000))
+    # (3b) sparse_super2 backup-group choices x resize_inode on/off x group counts (one, two, three and many groups)
+    for nb in (0, 1, 2):
+        for ro in ('', ',^resize_inode'):
+            for s in (200, 300, 600, 900, 3000) if quick else (200, 257, 300, 512, 513, 600, 768, 900, 1300, 3000, 9000):
+                for bs in (1024, 4096):
+                    if bs == 4096 and s < 600: continue
+                    jobs.append(('ss2/nb%d%s/b%d/%dk' % (nb, ro, bs, s * (bs // 1024)), ['-t', 'ext4', '-O', '^has_journal,sparse_super2' + ro, '-E', 'num_backup_sb=%d' % nb, '-b', str(bs), '-g', str(256 * (bs // 1024)), '-N', '64'], s * (bs // 1024), bs, False))
     # (4) pairwise feature interaction: every pair of feature toggles on top of ext4 (each feature alone is in (3)/(1); code that serves one feature often forgets another)
     TOG = ['bigalloc', 'orphan_file', '^has_journal', 'quota', 'project', 'inline_data', 'meta_bg', '^resize_inode', '64bit', 'metadata_csum', '^metadata_csum', 'sparse_super2', 'ea_inode', '^flex_bg',
            '^extent', 'uninit_bg', 'encrypt', 'casefold', 'mmp', 'large_dir', '^huge_file', '^dir_index', 'fast_commit', 'stable_inodes', 'verity', '^sparse_super', '^ext_attr', 'metadata_csum_seed']
